@@ -14,7 +14,8 @@
 //    followed by '/' ends a scheme": for them no ":/" pair is emitted in path or query
 //    (excl_schemeless_colon_slash) and no empty port directly before a path (excl_schemeless_emptyport_path);
 //  * a string with nothing after the optional "scheme://" ("" and "s://") is rejected by the parser by an
-//    explicit branch: an empty authority is only generated when a path or a query follows (excl_nothing_after_scheme).
+//    explicit branch: an empty authority is only generated when a path or a query follows (excl_nothing_after_scheme);
+//    a replay file with cfg[6] = 1 lifts this exclusion (used to document the parser's answer to "s://").
 #include "pbt.hpp"
 #include "galloc.hpp"
 
@@ -40,7 +41,7 @@ static const std::string A_PATH = UNRES + SUBD + "%:@/";     // *( "/" segment )
 static const std::string A_QUERY = UNRES + SUBD + "%:@/?";   // *( pchar / "/" / "?" )
 
 enum { K_SCHEME, K_USER, K_PASS, K_HOST, K_PORT, K_PATH, K_QUERY, NKINDS };
-enum { CF_SCHEME, CF_UI, CF_HOSTKIND, CF_PORT, CF_QUERY, CF_MODE, NCFG };
+enum { CF_SCHEME, CF_UI, CF_HOSTKIND, CF_PORT, CF_QUERY, CF_MODE, NCFG, CF_STRICT = NCFG /* replay files only, never generated */ };
 enum { H_REGNAME, H_IPV4, H_IPLIT, H_EMPTY };
 enum { M_PARSE, M_BUILD_QS, M_BUILD_PARAMS };
 
@@ -404,7 +405,8 @@ static void run(const Case &c, Ctx &ctx) {
     }
     std::string userinfo = ui == 2 ? user + ":" + password : user;
     std::string authority = (ui ? userinfo + "@" : "") + hosttext + (port_present ? ":" + port : "");
-    if (authority.empty() && path.empty() && !query_present) {
+    // cfg[6] = 1 (hand-written replay files only) keeps "" / "s://" and expects the components it was assembled from
+    if (authority.empty() && path.empty() && !query_present && c.c(CF_STRICT) % 2 == 0) {
         path = "/";
         ctx.tag("excl_nothing_after_scheme");
     }
